@@ -172,3 +172,53 @@ def r_fix_path_conversion(model, rep, classes=("treeinfo.Images", "treeinfo.Stag
                         "absolute" if ab else "relative", (" and %s '/os/'" % ("contains" if os_ else "does not contain")),
                         [T.show(v)[:60] for v in vals], T.show(want))
         rep.ob("R-FIX-PATH", "%s._fix_path:legacy-conversion" % q, ok, site=cx.site(f.node), msg="" if ok else why)
+
+
+# ---------------------------------------------------------------------------------------------------------
+# R-LEGACY-VALUES: for the pre-productmd readers whose full fact sets are too spelling-sensitive (see LEGACY_READERS), the
+# *condition-free* part is still pinned as a lower bound: every (attribute <- constant) assignment and every call on a part of
+# self that the confirmed reader makes is still made somewhere in the reader, under whatever condition.  A table-driven or
+# reordered ladder keeps that set; a dropped branch (``self.short = "RHEL"`` gone, ``self.platforms.add(self.arch)`` gone) does not.
+# ---------------------------------------------------------------------------------------------------------
+FROZEN_VALUES = os.path.join(HERE, "legacy_values.json")
+# (Release.deserialize_0_0's family ladder was tried as well: five of the 258 neutral patches rewrite it over a table whose rows
+# supply name and short name through variables, and the constant assignments are gone from the text - dropped again)
+LEGACY_VALUE_READERS = [("treeinfo.Tree", "deserialize_0_0")]
+
+
+def coarse_of(model, qname, method):
+    out = set()
+    for k, a, v, c, lp in facts_of(model, qname, method):
+        if k == "store" and (v.startswith("'") or v in ("None", "True", "False") or v.lstrip("-").isdigit()):
+            out.add("%s <- %s" % (a, v))
+        elif k == "call" and "(" in a:
+            # only in-place additions to a container of self with a plain argument (self.platforms.add(self.arch)): tests such
+            # as name.startswith(..) and arguments computed in loops are spelled too many ways
+            import re as _re
+            if _re.fullmatch(r"self(\.\w+)+\.(add|append|update|extend)\((self(\.\w+)+|'[^']*')\)", a):
+                out.add("call %s" % a)
+    return sorted(out)
+
+
+def current_values(model):
+    return dict(("%s.%s" % (q, m), coarse_of(model, q, m)) for q, m in LEGACY_VALUE_READERS)
+
+
+def r_legacy_values(model, rep):
+    if not os.path.exists(FROZEN_VALUES):
+        raise AnalysisError("legacy_values.json is missing")
+    with open(FROZEN_VALUES) as fh:
+        frozen = json.load(fh)
+    n = 0
+    for q, m in LEGACY_VALUE_READERS:
+        key = "%s.%s" % (q, m)
+        want = set(frozen.get(key, []))
+        got = set(coarse_of(model, q, m))
+        n += len(want)
+        lost = sorted(want - got)
+        f = model.own_method(q, m)
+        rep.ob("R-LEGACY-VALUES", key, not lost, site="%s:%s" % (f.module.rel(), f.node.lineno),
+               msg="" if not lost else "the pre-productmd reader no longer establishes: %s" % "; ".join(lost[:4]),
+               facts={"pinned": len(want), "found": len(got)})
+    if n < 1:
+        raise AnalysisError("vacuity guard: R-LEGACY-VALUES compared %d pinned facts (floor 1)" % n)
